@@ -12,7 +12,7 @@ Layouts == {<<x, y, z>> : x \in SrcChoices(R1), y \in SrcChoices(R2), z \in SrcC
 Cfgs == IF Small
         THEN [skip : {0, 1}, cnt : {0, 2}, sel : {"none", "other_y", "n_ge_other"}, fields : {<<>>, <<"t2", "n", "t1">>}, excl : {<<>>, <<"t1">>},
               override : {"no"}, mts : BOOLEAN, split : {0, 2}]
-        ELSE [skip : 0..2, cnt : {0, 1, 3}, sel : Sels, fields : {<<>>, <<"n">>, <<"other", "n", "bogus">>, <<"t2", "n", "t1">>}, excl : {<<>>, <<"s">>, <<"t1">>},
+        ELSE [skip : 0..2, cnt : {0, 1, 3}, sel : Sels, fields : {<<>>, <<"n">>, <<"other", "n", "bogus">>, <<"t2", "n", "t1">>, <<"other">>, <<"extra", "t1">>}, excl : {<<>>, <<"s">>, <<"t1">>},
               override : {"no", "set", "empty"}, mts : BOOLEAN, split : {0, 2}]
 VARIABLES lay, cfg
 vars == <<lay, cfg>>
